@@ -1,63 +1,95 @@
-PROP = {
-    'level': 'proof',
-    'coq': ['Properties/C08.v'],
-    'coq_gen': ['Properties/C08_gen.v'],
-    'rule': ("TL: for each of the 73 generated lite-server Go types and 10 basic kinds, reflection-filled values marshalled to "
-             "valid encodings, then truncation at every offset, single-byte substitutions, trailing bytes, 12 length/count "
-             "attack words (ffffff7f, ffffffff, feffffff, 4096/4097 boundaries ...) at 4-aligned offsets, random bytes and "
-             "directed F12 witnesses; mutated streams run in a child process (address-space limit, 20 s timeout) and are then "
-             "measured in-process (runtime TotalAlloc <= 901*len+2446529). Compared with the model: outcome class and unread "
-             "byte count. TL-B: descriptors derived by reflection from 12 describable types (6 local types covering every "
-             "descriptor constructor, TickTock, StorageUsed, MsgAddress, SimpleLib, MerkleProof/MerkleUpdate); descriptor-guided "
-             "valid cell trees, truncated cells, dropped refs, flipped bits, pruned-branch / library / Merkle cells in every "
-             "reference position and at the root, random trees; compared: outcome class and unread bits/refs. Framing: "
-             "decodeLength, processQueryAnswer, ParsePacket (valid, truncated, size-field attacks), and VmStack.UnmarshalTL / "
-             "ParseContractMethods / decodeAccountDataFromProof on BOCs with 0..3 roots and damaged BOCs. For the 26 TL-B types "
-             "with hand-written decoders (hashmaps, VmStack incl. UnmarshalTL, Message, Transaction, Account, Block, Grams, "
-             "SnakeData, Text, Bytes, FixedLengthText, VmCont, VmStkTuple ...) the decoders run in the guarded child "
-             "(address-space limit, 10 s timeout) under a no-panic/no-crash oracle and an allocation oracle "
-             "`TotalAlloc delta <= 64*weight + 65536` (weight = sum over cells of 64 + data bytes, or the BOC length for "
-             "UnmarshalTL; plus 320*height^2 for VmStack whose list decoder re-copies the tail per level), with directed "
-             "inputs (VmStack depth prefixes up to 0xFFFFFF with 0..4 chain cells, tuple lengths, hashmap labels announcing "
-             "more bits than present, maximal length prefixes with a short remainder) - still exploration support, not part "
-             "of the claim; keys tlb-alloc-<Type>, tlb-panic-<Type>. "
-             "A class is (kind, type or family, mutation family, outcome ok|err|panic|crash)."),
-    'explanation': ("coq/Properties/C08.v: over a panic/allocation/step-annotated model of the repaired tl/decoder.go and the "
-                    "mini-language of generated UnmarshalTL bodies, for every schema satisfying the decidable condition sok and "
-                    "every byte string: never Panic, never out of fuel, allocation and steps <= (5+rate*fuel)*len + static constant, "
-                    "a successful decode consumes at least the minimal wire size; the TL-B reflection walker (Model/TlbCore.dec and "
-                    "its exotic-cell aware twin) never panics and takes at most usize(descriptor) steps; decodeLength, "
-                    "processQueryAnswer, the auth nonce parse, ParsePacket, VmStack.UnmarshalTL, ParseContractMethods, GetTransactions "
-                    "and decodeAccountDataFromProof never panic. coq/Properties/C08_gen.v re-checks sok on the bindings translated "
-                    "from liteclient/generated.go (rate 112, fuel 8: <= 901*len + 2446529 for all 73 types). The old behaviour "
-                    "(F12, F18) is refuted by witnesses in Proofs/C08History.v."),
-    'assumptions': ["allocation is the sum of modelled requests; growth policies of reflect.Append and bytes.Buffer enter as upper "
-                    "estimates (6x element size per append, 4x bytes read + 2048), checked empirically by the TotalAlloc oracle",
-                    "the reader is a *bytes.Reader; time is a count of decode calls, not wall-clock",
-                    "TL-B types with hand-written decoders are covered by the guarded no-panic/no-crash and allocation oracles only (exploration support, no model)",
-                    "tlb.Unmarshal of the root cell is a parameter of the root-indexing theorems; GetTransactions (r.Ids[i]) is "
-                    "proved on the model only (no fake-server run)",
-                    "VmStack list decoding re-copies the tail per level (quadratic in the chain length): observation, allowed for "
-                    "explicitly in the allocation oracle"],
-}
+PROP = {'level': 'proof',
+ 'coq': ['Properties/C08.v', 'Properties/C08_ext.v'],
+ 'coq_gen': ['Properties/C08_gen.v'],
+ 'rule': 'TL: for each of the 73 generated lite-server Go types and 10 basic kinds, reflection-filled values '
+         'marshalled to valid encodings, then truncation at every offset, single-byte substitutions, trailing bytes, '
+         '12 length/count attack words (ffffff7f, ffffffff, feffffff, 4096/4097 boundaries ...) at 4-aligned '
+         'offsets, random bytes and directed F12 witnesses; mutated streams run in a child process (address-space '
+         'limit, 20 s timeout) and are then measured in-process (runtime TotalAlloc <= 901*len+2446529). Compared '
+         'with the model: outcome class and unread byte count. TL-B: descriptors derived by reflection (plain kinds, '
+         'tags, Maybe/Either/EitherRef/Ref, sum types, and the hand-written decoders '
+         'Hashmap/HashmapE/HashmapAug/HashmapAugE with UintN/IntN/BitsN keys, VmStack, VmStackValue, VmStkTuple, '
+         'VmCellSlice, VmCont, Grams, VarUInteger, SnakeData, Bytes, Text (UTF-8 check), FixedLengthText, BinTree, '
+         'MsgAddress, the small enums) for 48 registered types (6 local types covering every constructor; Account, '
+         'ShardAccount, StateInit, CommonMsgInfo, CurrencyCollection, ConfigParams, StorageInfo, transaction phases, '
+         'MerkleProof/MerkleUpdate, dictionaries, stack types ...); descriptor-guided valid cell trees (valid '
+         'dictionaries, stacks, tuples, snakes), truncated cells, dropped refs, flipped bits, pruned-branch / '
+         'library / Merkle cells in every reference position and at the root, random trees, and directed prefixes at '
+         'their maximum with a short remainder (VmStack depth 1..0xFFFFFF with 0..4 chain cells, tuple lengths, '
+         'dictionary labels announcing more bits than present, VarUInteger/text lengths, cell-slice bounds around '
+         'the real size in all orders); compared with the model: outcome class and unread bits/refs. Decoders that '
+         'follow the data run in a child process (address-space limit, timeout) and additionally under two Go '
+         "oracles: TotalAlloc <= 64*weight + 65536 (+ 320*height^2 for VmStack's per-level copy), and the use oracle "
+         '(a value decoded without error must not make its own accessors / Unmarshal / JSON panic). Framing: '
+         'decodeLength, processQueryAnswer (also the same answer twice: must not hang), ParsePacket (valid, '
+         'truncated, size-field attacks), and VmStack.UnmarshalTL / ParseContractMethods / '
+         'decodeAccountDataFromProof on BOCs with 0..3 roots and damaged BOCs. Oracle-only (no model; exploration '
+         'support, not part of the claim): Block, BlockInfo, McStateExtra, Message, Transaction (both hash the cell '
+         'first and rewind the cursor), ShardStateUnsplit, ValueFlow. A class is (kind, type or family, mutation '
+         'family, outcome ok|err|panic|crash).',
+ 'explanation': 'coq/Properties/C08.v: over a panic/allocation/step-annotated model of the repaired tl/decoder.go '
+                'and the mini-language of generated UnmarshalTL bodies, for every schema satisfying the decidable '
+                'condition sok and every byte string: never Panic, never out of fuel, allocation and steps <= '
+                '(5+rate*fuel)*len + static constant, a successful decode consumes at least the minimal wire size; '
+                'the TL-B reflection walker (Model/TlbCore.dec and its exotic-cell aware twin) never panics and '
+                'takes at most usize(descriptor) steps; decodeLength, processQueryAnswer, the auth nonce parse, '
+                'ParsePacket, VmStack.UnmarshalTL, ParseContractMethods, GetTransactions and '
+                'decodeAccountDataFromProof never panic. coq/Properties/C08_gen.v re-checks sok on the bindings '
+                'translated from liteclient/generated.go (rate 112, fuel 8: <= 901*len + 2446529 for all 73 types). '
+                'The old behaviour (F12, F18) is refuted by witnesses in Proofs/C08History.v. '
+                'coq/Properties/C08_ext.v: the walker extended by the hand-written decoders (dictionaries, VmStack '
+                'lists, stack values, tuples, cell slices, Grams, snake data; data-driven recursion is structural on '
+                'the cell tree, so it needs no fuel) never panics on any cell tree, and for closed descriptors steps '
+                '+ modelled allocation <= usz(descriptor) * size-in-bytes * height of the tree, independent of every '
+                'announced depth / count / length; VmStack lists: 2*size + 912*height^2 with the quadratic term '
+                'shown to be real; VmStack.UnmarshalTL end to end (BOC parser of C07 + root indexing + walker) never '
+                'panics. coq/Properties/C08_ext.v: the walker extended by the hand-written decoders (dictionaries, '
+                'VmStack lists, stack values, tuples, cell slices, Grams, snake data; data-driven recursion is '
+                'structural on the cell tree, so it needs no fuel) never panics on any cell tree, and for closed '
+                'descriptors steps + modelled allocation <= usz(descriptor) * size-in-bytes * height of the tree, '
+                'independent of every announced depth / count / length; VmStack lists: 2*size + 912*height^2 with '
+                'the quadratic term shown to be real; VmStack.UnmarshalTL end to end (BOC parser of C07 + root '
+                'indexing + walker) never panics.',
+ 'assumptions': ['allocation is the sum of modelled requests; growth policies of reflect.Append and bytes.Buffer '
+                 'enter as upper estimates (6x element size per append, 4x bytes read + 2048), checked empirically '
+                 'by the TotalAlloc oracle',
+                 'the reader is a *bytes.Reader; time is a count of decode calls, not wall-clock',
+                 'tlb.Unmarshal of the root cell is a parameter of the root-indexing theorems; GetTransactions '
+                 '(r.Ids[i]) is proved on the model only (no fake-server run)',
+                 'VmStack list decoding re-copies the tail per level (quadratic in the chain length): observation, '
+                 'stated as its own theorem and allowed for explicitly in the allocation oracle',
+                 'TL-B types whose decoders hash the cell first (Message, Transaction, Block, BlockInfo, '
+                 'McStateExtra, ShardStateUnsplit, ValueFlow) are covered only by the guarded Go oracles '
+                 '(exploration support, no model)',
+                 'hashmap key types are UintN/IntN/BitsN whose decoder reads exactly FixedSize bits; the static Go '
+                 'size of values enters the allocation estimate as a descriptor parameter',
+                 'use oracle: only an UNSOUND decoded value (cell-slice window outside its cell, tuple entry without '
+                 'a constructor, tuple length without data, keys/values of different length) is a failure (keys '
+                 'tlb-unsound-<Type>, tlb-use-panic-<Type>); accessor panics on sound values are counted '
+                 'observations, currently one: tlb.Account.Status() panics on the zero Account that a skipped '
+                 'pruned-branch reference leaves in a ShardAccount (class observation:status-on-pruned-account)']}
 
-META = {
-    'text': ("Machine-checked proof (Coq) over a model of the repaired tl/decoder.go in which every make/MakeSlice carries its "
-             "panic condition and every allocation and decode call is counted: for every schema satisfying a decidable condition "
-             "(re-checked by vm_compute on all 73 bindings translated from liteclient/generated.go) and every byte string, "
-             "tl.Unmarshal returns a value or an error, never panics, and allocation + steps <= 901*len + 2446529; the TL-B "
-             "reflection walker never panics on any cell tree incl. library cells and pruned branches in every position and takes "
-             "at most the unrolled descriptor size in steps; the ADNL length/answer/packet helpers and the root-indexing helpers "
-             "(VmStack.UnmarshalTL, ParseContractMethods, GetTransactions, decodeAccountDataFromProof) never panic. Five defects "
-             "(8-byte input => fatal out-of-memory, 16 MiB per 4-byte prefix, three index panics) were repaired in /repo; their "
-             "witnesses are kept as refuted lemmas about the old code. The extracted model is run against the Go code on mutated "
-             "encodings of every generated type in a memory-limited child with an allocation oracle."),
-    'design_ref': 'DESIGN.md §6 C08',
-    'note': ("Trusted: Coq kernel, extraction, drivers, Go harness. Runtime growth policies (reflect.Append, bytes.Buffer) are upper "
-             "estimates in the model, observed via TotalAlloc and the child's address-space limit. Partial: step bound is a call count; "
-             "hand-written TL-B decoders (hashmaps, VmStack lists, messages, blocks) run only under the Go no-panic oracle; "
-             "GetTransactions is not exercised on the Go side; no proved refinement between the exotic-aware walker and TlbCore.dec "
-             "(tied by correspondence instead)."),
-    'technique': ('Coq resource-logic (potential function) totality/allocation proof of a panic-annotated decoder model + schema '
-                  'obligations by vm_compute + extracted-model correspondence on malformed streams in a guarded child'),
-}
+META = {'text': 'Machine-checked proof (Coq) over a model of the repaired tl/decoder.go in which every make/MakeSlice '
+         'carries its panic condition and every allocation and decode call is counted: for every schema satisfying a '
+         'decidable condition (re-checked by vm_compute on all 73 bindings translated from liteclient/generated.go) '
+         'and every byte string, tl.Unmarshal returns a value or an error, never panics, and allocation + steps <= '
+         '901*len + 2446529; the TL-B reflection walker never panics on any cell tree incl. library cells and pruned '
+         'branches in every position and takes at most the unrolled descriptor size in steps; the ADNL '
+         'length/answer/packet helpers and the root-indexing helpers (VmStack.UnmarshalTL, ParseContractMethods, '
+         'GetTransactions, decodeAccountDataFromProof) never panic. Five defects (8-byte input => fatal '
+         'out-of-memory, 16 MiB per 4-byte prefix, three index panics) were repaired in /repo; their witnesses are '
+         'kept as refuted lemmas about the old code (a sixth, a swallowed tuple-entry error, was repaired later). A '
+         'second layer puts the hand-written TL-B decoders (dictionaries, VmStack lists and values, tuples, cell '
+         'slices, Grams, snake data) inside the theorems: total on every cell tree, cost <= usz * size * height '
+         "independent of any announced length, VmStack's quadratic per-level copy stated separately. The extracted "
+         'model is run against the Go code on mutated encodings of every generated type in a memory-limited child '
+         'with an allocation oracle.',
+ 'design_ref': 'DESIGN.md §6 C08',
+ 'note': 'Trusted: Coq kernel, extraction, drivers, Go harness. Runtime growth policies (reflect.Append, '
+         "bytes.Buffer) are upper estimates in the model, observed via TotalAlloc and the child's address-space "
+         'limit. Partial: step bound is a call count; decoders that hash the cell (Message, Transaction, Block*) run '
+         'only under the Go oracles; GetTransactions is not exercised on the Go side; no proved refinement between '
+         'the exotic-aware walker and TlbCore.dec (tied by correspondence instead).',
+ 'technique': 'Coq resource-logic (potential function) totality/allocation proof of a panic-annotated decoder model '
+              '+ schema obligations by vm_compute + extracted-model correspondence on malformed streams in a guarded '
+              'child'}
